@@ -256,6 +256,14 @@ def main():
                     if failures or k > 20000:
                         break
                 out["observed"] = {"yielded": [list(x) if isinstance(x, tuple) else x for x in items[:10]]}
+                comp = getattr(c, "complete", None)
+                if comp and not failures and req["model"].get(comp["var"]) is not None:
+                    w = conv(req["model"][comp["var"]])
+                    out["inputs"][comp["var"]] = list(w) if isinstance(w, tuple) else w
+                    if all(sp.ev(r, **{comp["var"]: w}) for r in comp["when"]) and w not in items:
+                        failures.append({"clause": f"every {comp['var']} with {' and '.join(comp['when'])} is yielded",
+                                         "not_yielded": list(w) if isinstance(w, tuple) else w,
+                                         "number_yielded": len(items)})
             else:
                 out["observed"] = {"result": list(res) if isinstance(res, tuple) else res}
                 for e in c.ensures:
